@@ -114,6 +114,28 @@ Inductive edit :=
 | EInsert (pos : N) (cp : N)
 | EDelete (pos : N).
 
+(* Long byte strings are written compactly: a list of (chunk, count) parts,
+   each chunk repeated count times (the harness checks that the expansion is
+   exactly the string it used). *)
+Inductive cstr := CS (parts : list (str * N)).
+Definition cx (c : cstr) : str :=
+  let '(CS parts) := c in
+  flat_map (fun p : str * N => concat (repeat (fst p) (N.to_nat (snd p)))) parts.
+
+(* key, value, number of consecutive occurrences *)
+Definition ckvs := list (cstr * cstr * N).
+Definition cx_kvs (l : ckvs) : list (str * str) :=
+  flat_map (fun e : cstr * cstr * N =>
+              let '(k, v, c) := e in repeat (cx k, cx v) (N.to_nat c)) l.
+
+Inductive ctok_obs := CTAccept (sel : cstr) | CTRefuse | CTPanic.
+Definition cx_obs (o : ctok_obs) : tok_obs :=
+  match o with CTAccept s => TAccept (cx s) | CTRefuse => TRefuse | CTPanic => TPanic end.
+
+(* http::Uri refuses a request target longer than u16::MAX - 1 bytes; hyper
+   answers such a request itself (4xx) and dropshot never sees it *)
+Definition URI_MAX_LEN : N := 65534.
+
 Inductive c14case :=
 (* selector (canonical JSON), envelope bytes written by the harness's own
    mirror struct (None: serde_json cannot serialise this selector), what
@@ -125,7 +147,14 @@ Inductive c14case :=
 | CQuery (kvs : list (str * str)) (ti : tokinfo) (obs : qobs)
 (* live server: /live/{n}?kvs ; marker = the oracle's reading of the token's
    selector {"last": marker} *)
-| CLive (kvs : list (str * str)) (ti : tokinfo) (marker : N) (n : N) (obs : live_obs).
+| CLive (kvs : list (str * str)) (ti : tokinfo) (marker : N) (n : N) (obs : live_obs)
+(* the same cases with long strings / many repeated parameters written
+   compactly; judged by the same functions after expansion.  [target_len] is
+   the length in bytes of the request target the harness sent. *)
+| CIssueC (sel : cstr) (env : option cstr) (obs : res N cstr) (back : ctok_obs)
+| CAcceptC (tok : cstr) (ti : tokinfo) (obs : ctok_obs)
+| CQueryC (kvs : ckvs) (ti : tokinfo) (obs : qobs)
+| CLiveC (target_len : N) (kvs : ckvs) (ti : tokinfo) (marker : N) (n : N) (obs : live_obs).
 
 (* ---------- token judgement ---------- *)
 Definition utf8_cp (cp : N) : str :=
@@ -410,4 +439,18 @@ Definition judge (c : c14case) : N :=
                        judge_token (apply_edit base e) (TI false h env) obs) rows)
   | CQuery kvs ti obs => judge_query kvs ti obs
   | CLive kvs ti marker n obs => judge_live kvs ti marker n obs
+  | CIssueC sel env obs back =>
+      judge_issue (cx sel) (option_map cx env)
+                  (match obs with Ok t => Ok (cx t) | Err c => Err c end) (cx_obs back)
+  | CAcceptC tok ti obs => judge_token (cx tok) ti (cx_obs obs)
+  | CQueryC kvs ti obs => judge_query (cx_kvs kvs) ti obs
+  | CLiveC target_len kvs ti marker n obs =>
+      if URI_MAX_LEN <? target_len then
+        (* refused by the HTTP library before dropshot: must be a 4xx *)
+        match obs with
+        | LStatus c => if (400 <=? c) && (c <? 500) then V_AGREE else V_VIOLATION
+        | LOk _ _ _ _ => V_DIVERGE
+        | LFail => V_VIOLATION
+        end
+      else judge_live (cx_kvs kvs) ti marker n obs
   end.
